@@ -1084,7 +1084,7 @@ def _width_scenarios(rep, src, m, cname, modes):
                     rep.ok(rid, pw.site, what, 'nothing raised (%s)' % ('width %r' % (got[k0],) if k0 in got else 'no width registered'))
 
 
-def r4_size_column(rep, src):
+def r4_size_column(rep, src, rep_align=None):
     m = src.mod(MOD)
     _size_behavior_default(rep, src, m)
     for cname, modes in (('PdiffIndex', None), ('Release', ('apt-ftparchive', 'dak'))):
@@ -1258,10 +1258,12 @@ def r4_size_column(rep, src):
         if isinstance(c, ast.Call) and isinstance(c.func, ast.Attribute) and c.func.attr in ('ljust', 'center'):
             okp = False
             break
+    # (how the padding is written: a second opinion behind the interpreted writer, whose records with a registered width must come out
+    # right-aligned -- C12.R2)
     if okp:
-        rep.ok('C12.R4', fw.site, 'right alignment', 'padded on the left to the registered width')
+        (rep_align or rep).ok('C12.R4', fw.site, 'right alignment', 'padded on the left to the registered width')
     else:
-        rep.fail('C12.R4', fw.site, 'right alignment', 'the size column is not padded on the left to the registered width', where=fw.where)
+        (rep_align or rep).fail('C12.R4', fw.site, 'right alignment', 'the size column is not padded on the left to the registered width', where=fw.where)
 
 
 def check(src, rep, tier):
@@ -1289,7 +1291,7 @@ def check(src, rep, tier):
     if rep.min_instances.get('C12.R2') == 0:
         rep.min_instances['C12.R2'] = n_r2
     rep.guard('C12.R3', r3_tables, src)
-    rep.guard('C12.R4', r4_size_column, src)
+    rep.guard('C12.R4', r4_size_column, src, common.SoftAll(rep, lambda: scen_hold, 'the interpreted writer with a registered width (C12.R2), whose size column is right-aligned in every record'))
     n_r5 = sum(1 for i_ in rep.instances if i_.get('rule') == 'C12.R5')
     common.SoftErrors(rep, lambda: scen_hold, 'the interpreted writer and reader scenarios (C12.R2), which hold').guard('C12.R5', r5_container_kind, src, M)
     if rep.min_instances.get('C12.R5') == 0:
